@@ -95,7 +95,9 @@ LeafPool == <<
   Leaf("Const", <<1, 1, 2, 1, -1, 1, 0, 1, 3, 1, 1, 1>>, <<2, 3>>, "f", 0, {}),  \* 55 [[1, 2, -1], [0, 3, 1]] (two coefficient rows)
   Leaf("Const", <<1, 1>>, <<>>, "i", 2, {}),                              \* 56 1 (int)
   Leaf("Const", <<1, 2, 2, 1>>, <<2>>, "f", 0, {}),                       \* 57 [.5, 2.]
-  Leaf("Arg", <<14>>, <<>>, "i", 0, {})                                   \* 58 scalar integer argument (loop length via InRange)
+  Leaf("Arg", <<14>>, <<>>, "i", 0, {}),                                  \* 58 scalar integer argument (loop length via InRange)
+  Leaf("Const", <<7, 1, 2, 1, 9, 1, 0, 1, 11, 1, 4, 1, 5, 1, 10, 1, 1, 1, 8, 1, 3, 1, 6, 1>>, <<2, 2, 3>>, "i", 12, {}),  \* 59 rank-3 index block, distinct entries 0..11
+  Leaf("Arg", <<15>>, <<2, 2, 3>>, "f", 0, {})                            \* 60 argument of shape (2, 2, 3)
 >>
 
 \* fixed environment for the model-internal sanity invariants (and for evaluating loop dependent lengths, which do
@@ -105,7 +107,8 @@ TestEnv == << ArgArr(<<2>>, <<1, 2>>, 0), ArgArr(<<2, 2>>, <<1, 2, 3, 5>>, 0), A
               ArgArr(<<2, 2, 2>>, <<1, 2, 3, 4, 5, 6, 7, 9>>, 0), ArgArr(<<3, 3>>, <<2, 1, 0, 1, 3, 1, 0, 1, 2>>, 0),
               ArgArr(<<4>>, <<1, 2, 3, 4>>, 0),
               ArgArr(<<2>>, <<1, 2, 2, -1>>, 0), ArgArr(<<>>, <<2, 1>>, 0), ArgArr(<<2, 2>>, <<1, 2, 0, 1, 1, 0, -1, 2>>, 0),
-              ArgArr(<<6>>, <<1, 2, -1, 3, 0, 2>>, 0), ArgArr(<<>>, <<2>>, 0) >>
+              ArgArr(<<6>>, <<1, 2, -1, 3, 0, 2>>, 0), ArgArr(<<>>, <<2>>, 0),
+              ArgArr(<<2, 2, 3>>, <<1, 2, 3, 4, 5, 6, 7, 8, 9, -1, -2, -3>>, 0) >>
 
 IsLeaf(n) == Len(n.d) = 0
 NOps == Cardinality({k \in 1..Len(nodes) : ~IsLeaf(nodes[k])})
@@ -130,7 +133,7 @@ Same(i, j) == Nd(i).sh = Nd(j).sh /\ Nd(i).dt = Nd(j).dt
 Lp2(i, j) == Nd(i).lp \cup Nd(j).lp
 
 \* a vocabulary with a macro step is a directed family: its programs begin with a macro chain
-MacroFamily == "MacroArgLoop" \in Ops \/ "MacroLenTab" \in Ops
+MacroFamily == "MacroArgLoop" \in Ops \/ "MacroLenTab" \in Ops \/ "MacroUVC" \in Ops
 AddLeaf == /\ NLeaves < MaxLeaves /\ Cardinality(Unused) <= 1 /\ (MacroFamily => L > 0)
            /\ \E l \in LeafSet : Push(LeafPool[l])
 
@@ -193,7 +196,7 @@ ADiagOp == /\ "Diagonalize" \in Ops /\ L >= 1 /\ Rank(L) >= 1 /\ Rank(L) <= 2 /\
 
 \* Inflate(func, dofmap, length): func.shape ends with dofmap.shape (both may end in the same dynamic axis)
 AInflateOp == /\ "Inflate" \in Ops
-              /\ \E ij \in Pairs : \E len \in {2, 3} :
+              /\ \E ij \in Pairs : \E len \in {2, 3} \cup (IF Nd(ij[2]).ix = 12 THEN {12} ELSE {}) :     \* 12: the rank-3 index block
                     /\ Nd(ij[1]).dt \in {"f", "i", "b", "c"} /\ Nd(ij[2]).dt = "i" /\ Nd(ij[2]).ix > 0 /\ Nd(ij[2]).ix <= len
                     /\ Rank(ij[2]) <= Rank(ij[1])
                     /\ SubSeq(Nd(ij[1]).sh, Rank(ij[1]) - Rank(ij[2]) + 1, Rank(ij[1])) = Nd(ij[2]).sh
@@ -344,6 +347,19 @@ AMonomialOp == /\ "Monomial" \in Ops /\ L >= 1
 AMacro == \/ /\ "MacroArgLoop" \in Ops /\ ArgLoopLen = {} /\ NLeaves < MaxLeaves /\ NOps + 2 <= MaxOps /\ L + 3 <= MaxNodes /\ Cardinality(Unused) <= 1
              /\ nodes' = nodes \o << LeafPool[58], Node("InRange", <<L + 1>>, <<3>>, <<>>, "i", 3, {}),
                                     Node("LoopIndexN", <<L + 2>>, <<ArgLoop>>, <<>>, "i", 2, {ArgLoop}) >>
+             /\ UNCHANGED fam
+          \*   MacroUVC    : three 3x3 factors of a product u_i v_j C_ij: U = InsertAxis(Inflate(a1, [1,0], 3), 3) (varies along axis 0),
+          \*                 V = Transpose(InsertAxis(Inflate([1.,2.], Range(2), 3), 3)) (varies along axis 1), C = argument a8; the
+          \*                 factor named by `last` is pushed last (the next constructor must use it), so all bracketings arise
+          \/ /\ "MacroUVC" \in Ops /\ L = 0 /\ NLeaves + 5 <= MaxLeaves /\ NOps + 5 <= MaxOps /\ L + 10 <= MaxNodes
+             /\ \E last \in {"U", "V", "C"} :
+                   LET U(o) == << LeafPool[1], LeafPool[13], Node("Inflate", <<o + 1, o + 2>>, <<3>>, <<3>>, "f", 0, {}),
+                                  Node("InsertAxis", <<o + 3>>, <<3>>, <<3, 3>>, "f", 0, {}) >>
+                       V(o) == << LeafPool[7], LeafPool[20], Node("Inflate", <<o + 1, o + 2>>, <<3>>, <<3>>, "f", 0, {}),
+                                  Node("InsertAxis", <<o + 3>>, <<3>>, <<3, 3>>, "f", 0, {}),
+                                  Node("Transpose", <<o + 4>>, <<1, 0>>, <<3, 3>>, "f", 0, {}) >>
+                       C == << LeafPool[31] >>
+                   IN nodes' = IF last = "C" THEN U(0) \o V(4) \o C ELSE IF last = "V" THEN U(0) \o C \o V(5) ELSE V(0) \o C \o U(6)
              /\ UNCHANGED fam
           \/ /\ "MacroLenTab" \in Ops /\ NLeaves + 2 <= MaxLeaves /\ NOps + 1 <= MaxOps /\ L + 3 <= MaxNodes /\ Cardinality(Unused) <= 1
              /\ \E l \in {1, 2} :
